@@ -2,6 +2,7 @@
 from .. import common as C
 
 LEAN_MODULES = ["ZvtVerif.Properties.C16"]
+TRANSLATED = set()      # translated tables this property consumes (a translator problem elsewhere does not break its tie)
 ASSUMPTIONS = ["usize is 64 bit", "Fixed<N> exercised for N = 0..17 (const generic instantiations compiled into the harness)"]
 
 
